@@ -105,7 +105,7 @@ func checkC06(c *Ctx, r *Report) {
 		r2.guard(f, a.insFld+"[conn] = {}", ins, a.hitField+" miss", miss, nil)
 		// hit => delete and dispatch; miss => insert and no dispatch
 		var hitE, missE []CFGEdge
-		for _, b := range f.Blocks {
+		for _, b := range blocksDeep(f) {
 			for s := range b.Succs {
 				if hit(b, s) {
 					hitE = append(hitE, CFGEdge{b, s})
@@ -218,7 +218,7 @@ func checkC06(c *Ctx, r *Report) {
 	// every wg.Add on the emitter's wait group: under closeMu, past !closed
 	nAdd := 0
 	for _, g := range c.FnsOfPkg(swarmP) {
-		adds := findInstrs(g, func(in ssa.Instruction) bool {
+		adds := findInstrsIn(g, func(in ssa.Instruction) bool {
 			if !isCallTo(in, "(*sync.WaitGroup).Add") {
 				return false
 			}
@@ -266,7 +266,8 @@ func checkC06(c *Ctx, r *Report) {
 	r5 := r.Rule("C06-R5", "E1", 7, "swarm wiring order: register+ref before Connected; Connected before the accept loop; removal before Disconnected; Close waits before closing emitters")
 	sw := "(*" + swarmP + ".Swarm)."
 	if f := r5.need(sw + "addConn"); f != nil {
-		// each step is where it happens in addConn — directly, or at the call of a helper extracted since
+		// each step is where it happens in addConn — directly, or in a helper extracted since (findInstrs and the path
+		// search look into those)
 		isReg := func(in ssa.Instruction) bool {
 			mu, ok := in.(*ssa.MapUpdate)
 			return ok && strings.Contains(mu.Map.Type().String(), "swarm.Conn")
@@ -278,13 +279,10 @@ func checkC06(c *Ctx, r *Report) {
 			fl, _ := fieldAddrOf(in.(ssa.CallInstruction).Common().Args[0])
 			return fl != nil && fl.Name() == "refs"
 		}
-		like := func(p func(ssa.Instruction) bool) func(ssa.Instruction) bool {
-			return func(in ssa.Instruction) bool { return siteLike(in, p) }
-		}
-		addC := findInstrs(f, like(callPred(em("AddConn"))))
-		start := findInstrs(f, like(callPred("(*"+swarmP+".Conn).start")))
-		reg := findInstrs(f, like(isReg))
-		refs := findInstrs(f, like(isRefsAdd))
+		addC := findInstrs(f, callPred(em("AddConn")))
+		start := findInstrs(f, callPred("(*"+swarmP+".Conn).start"))
+		reg := findInstrs(f, isReg)
+		refs := findInstrs(f, isRefsAdd)
 		ok := len(addC) == 1 && len(start) == 1 && len(reg) == 1 && len(refs) == 1
 		r5.Check(ok, sw+"addConn: sites", f.Pos(), 4, "", "expected one registration, one refs.Add, one AddConn, one start", "")
 		if ok {
@@ -314,12 +312,12 @@ func checkC06(c *Ctx, r *Report) {
 				if rk != "(*"+swarmP+".Conn).doClose" && rk != "(*"+swarmP+".Conn).start" {
 					continue
 				}
-				if len(findInstrs(g, func(in ssa.Instruction) bool { _, d := in.(*ssa.Defer); return d && isRefsCall(in, "Done") })) > 0 {
+				if len(findInstrsIn(g, func(in ssa.Instruction) bool { _, d := in.(*ssa.Defer); return d && isRefsCall(in, "Done") })) > 0 {
 					parties++
 				}
 			}
-			realRefs, realReg := siteIn(refs[0], isRefsAdd), siteIn(reg[0], isReg)
-			if len(realRefs) != 1 || len(realReg) != 1 || realRefs[0].Parent() != realReg[0].Parent() {
+			realRefs, realReg := []ssa.Instruction{refs[0]}, []ssa.Instruction{reg[0]}
+			if realRefs[0].Parent() != realReg[0].Parent() {
 				r5.Fail(sw+"addConn: registration and refs.Add in one function", f.Pos(), "the registration and the reference count are not taken together", "")
 				realRefs, realReg = []ssa.Instruction{refs[0]}, []ssa.Instruction{reg[0]}
 			}
@@ -363,6 +361,30 @@ func checkC06(c *Ctx, r *Report) {
 			r5.Check(isC && parties >= 2 && int(k) == parties && underLock && lateAdd == 0, sw+"addConn: one swarm reference per releasing party (doClose, accept loop) is taken in the critical section that registers the connection", instrPos(realRefs[0]), 3, "",
 				"Swarm.Close can find the registered connection, close it, and return before its Connected / Disconnected notifications are delivered", fmt.Sprintf("Add(%d) under conns lock=%v, releasing parties=%d, Add in Conn.start=%d", k, underLock, parties, lateAdd))
 		}
+	}
+	// a connection that dies underneath (remote hang-up) is noticed only by its accept loop, whose exit closes the
+	// swarm connection and so leads to Disconnected: start must start that loop on every path
+	if f := r5.need("(*" + swarmP + ".Conn).start"); f != nil {
+		isLoopGo := func(in ssa.Instruction) bool {
+			g, ok := in.(*ssa.Go)
+			if !ok {
+				return false
+			}
+			body := g.Call.StaticCallee()
+			if body == nil || body.Blocks == nil {
+				return false
+			}
+			accepts := len(findInstrsIn(body, func(x ssa.Instruction) bool { return calleeNameIs(x, "AcceptStream") })) > 0
+			closes := len(findInstrsIn(body, func(x ssa.Instruction) bool {
+				_, d := x.(*ssa.Defer)
+				return d && isCallTo(x, "(*"+swarmP+".Conn).Close")
+			})) > 0
+			return accepts && closes
+		}
+		gos := findInstrs(f, isLoopGo)
+		w, n := (&Cut{Fn: f, Target: func(in ssa.Instruction) bool { _, ok := in.(*ssa.Return); return ok }, Sep: isLoopGo}).Run(c)
+		r5.Check(len(gos) == 1 && w == "", "(*"+swarmP+".Conn).start: every path starts the accept loop, which closes the connection when it ends", f.Pos(), n+1, "",
+			"a connection whose transport died before start is never closed by the swarm: Disconnected is never delivered and it stays in ConnsToPeer", w)
 	}
 	if f := r5.need("(*" + swarmP + ".Conn).doClose"); f != nil {
 		rmv := findInstrs(f, callPred(sw+"removeConn"))
